@@ -281,6 +281,58 @@ Theorem C14_restored_state_meets_spec_repaired : forall lc cp initial disc ties 
 Proof. exact restored_state_meets_spec_fixed. Qed.
 Print Assumptions C14_restored_state_meets_spec_repaired.
 
+(* ---- what the node boots from: the stores after node.startStateSync ---- *)
+
+(* startStateSync hands the state and commit to stateStore.Bootstrap and blockStore.SaveSeenCommit.
+   For a state that meets state_spec and the vouched commit, on top of ANY previous store
+   content: both calls succeed and afterwards every LoadValidators in [h, h+2] returns the vouched
+   set of THAT height, LoadConsensusParams(h+1) the params header h+1 commits to, Load() the
+   state, LoadSeenCommit(h) the vouched commit of block h. *)
+Theorem C14_bootstrap_meets_spec : forall lc initial h st cm s0,
+  state_spec lc initial h st -> commit_spec lc h cm ->
+  exists s, node_bootstrap s0 st cm = Some s /\ bootstrapped_store_spec lc h st (store_lookups s).
+Proof. exact bootstrap_meets_spec. Qed.
+Print Assumptions C14_bootstrap_meets_spec.
+
+(* ... and it stays right while the node saves the states of the following blocks, for any number
+   of them: when these follow the chain (follows_chain: what updateState derives from blocks whose
+   effects are the chain's), every validator lookup in [h, t+2] and every params lookup in
+   [h+1, t+1] returns the chain's value of that height - records that only point to the height of
+   the last change resolve, through the records Bootstrap wrote if need be, checkpoint heights
+   (valSetCheckpointInterval) included. *)
+Theorem C14_bootstrap_successors_resolve : forall lc initial h st cm s0 succs,
+  state_spec lc initial h st ->
+  follows_chain_all lc st succs ->
+  exists s1 s, node_bootstrap s0 st cm = Some s1 /\ save_all s1 succs = Some s /\
+    store_tracks_chain lc h (st_last_height (last_of st succs)) (store_lookups s) /\
+    lk_state (store_lookups s) = Some (last_of st succs) /\
+    lk_seen (store_lookups s) h = Some cm.
+Proof. exact successors_resolve. Qed.
+Print Assumptions C14_bootstrap_successors_resolve.
+
+(* End to end: whatever SyncAny returns (repaired State(), any consensus_params server, any
+   history) and startStateSync then stores, the node reads back the light-verified values. *)
+Theorem C14_restored_node_boots_from_verified : forall lc cp initial disc ties evs st cm s0,
+  light_client_ok lc -> Forall ev_ok evs ->
+  s_mode (reach (lc_provider_fixed lc cp initial) disc ties evs) = MDone (OOk st cm) ->
+  exists s sn, node_bootstrap s0 st cm = Some s /\
+    bootstrapped_store_spec lc (sn_height sn) st (store_lookups s).
+Proof.
+  intros lc cp initial disc ties evs st cm s0 OK HF H.
+  destruct (restored_state_meets_spec_fixed lc cp initial disc ties evs st cm OK HF H)
+    as (sn & ah & height & _ & HS & HC & _).
+  destruct (bootstrap_meets_spec lc initial (sn_height sn) st cm s0 HS HC) as (s & E & B).
+  exists s, sn. auto.
+Qed.
+Print Assumptions C14_restored_node_boots_from_verified.
+
+(* the deciders the harness evaluates on the real stores' answers (clauses 18, 19) *)
+Theorem C14_store_spec_decided : forall lc z ans prev next,
+  (spec_vals_lookup_b lc z ans = true <-> exists b, vouched lc z b /\ ans = Some (lb_vals b)) /\
+  (follows_chain_b lc prev next = true <-> follows_chain lc prev next).
+Proof. intros. split; [apply spec_vals_lookup_b_iff | apply follows_chain_b_iff]. Qed.
+Print Assumptions C14_store_spec_decided.
+
 (* Two arbitrary histories (different peers, chunks, verdicts) that restore a snapshot of the
    same height return the same state, commit and offered app hash. *)
 Theorem C14_noninterference : forall pv disc1 disc2 ties1 ties2 evs1 evs2 st1 cm1 st2 cm2,
@@ -446,3 +498,76 @@ Example C14_verify_app_empty_trusted_hash :
   verify_app ex_snap [160%N] (mkState 1 11 5 3 0 [] [] [] [] [] [] 5 [] 4) 5 [] 3 = Some 6 /\
   verify_app ex_snap [160%N] (mkState 1 11 5 3 0 [] [] [] [] [] [] 5 [] 4) 5 [160%N; 0%N] 3 = Some 6.
 Proof. repeat split; vm_compute; reflexivity. Qed.
+
+(* ---- the stores after startStateSync: non-vacuity, and the wrong-variable Bootstrap ---- *)
+
+Definition sp_state3 : sstate :=
+  match lc_state sp_lc (lrpc_params sp_lc sp_honest) 0 3 with ROk st => st | _ => mkState 0 0 0 0 0 [] [] [] [] [] [] 0 [] 0 end.
+(* the state after block 4 when block 4 changed the validator set (sp_lc: every height differs)
+   and the one after block 5 *)
+Definition sp_state4 : sstate :=
+  mkState 1 11 25 4 104 [4%N] [160%N; 5%N] [176%N; 5%N] [9%N; 4%N] [9%N; 5%N] [9%N; 6%N] 6 [1%N; 5%N] 5.
+Definition sp_state5 : sstate :=
+  mkState 1 11 26 5 105 [5%N] [160%N; 6%N] [176%N; 6%N] [9%N; 5%N] [9%N; 6%N] [9%N; 7%N] 7 [1%N; 6%N] 6.
+
+Example C14_bootstrap_nonvacuous :
+  state_spec sp_lc 0 3 sp_state3 /\ follows_chain_all sp_lc sp_state3 [sp_state4; sp_state5] /\
+  (exists s, node_bootstrap store0 sp_state3 [53%N] = Some s /\
+             spec_boot_b sp_lc 3 sp_state3 (store_lookups s) = true /\
+             lk_vals (store_lookups s) 5 = Some [9%N; 5%N] /\
+             exists s', save_all s [sp_state4; sp_state5] = Some s' /\
+                        spec_tracks_b sp_lc 3 5 (store_lookups s') = true /\
+                        lk_vals (store_lookups s') 7 = Some [9%N; 7%N]).
+Proof.
+  split; [apply spec_state_b_iff; vm_compute; reflexivity|].
+  split; [cbn [follows_chain_all]; split; [apply follows_chain_b_iff; vm_compute; reflexivity|];
+          split; [apply follows_chain_b_iff; vm_compute; reflexivity|exact I]|].
+  eexists. split; [vm_compute; reflexivity|]. split; [vm_compute; reflexivity|].
+  split; [vm_compute; reflexivity|].
+  eexists. split; [vm_compute; reflexivity|]. split; vm_compute; reflexivity.
+Qed.
+
+(* a chain whose validator set changes at height 5 only (so that the states after the snapshot
+   write pointer records) *)
+Definition sq_lb (h : Z) : lightblock :=
+  mkLB h (100 + h) 11 20 [160%N; Z.to_N h] [176%N; Z.to_N h] [Z.to_N h] [Z.to_N (50 + h)]
+       [9%N; if h <? 5 then 1%N else 2%N] [1%N].
+Definition sq_lc (h : Z) : res lightblock := if (0 <? h) && (h <=? 9) then ROk (sq_lb h) else RFail.
+Definition sq_state3 : sstate :=
+  match lc_state sq_lc (fun _ => Some [1%N]) 0 3 with ROk st => st | _ => mkState 0 0 0 0 0 [] [] [] [] [] [] 0 [] 0 end.
+Definition sq_state4 : sstate :=   (* block 4 changed nothing: LastHeightValidatorsChanged stays 5 *)
+  mkState 1 11 20 4 104 [4%N] [160%N; 5%N] [176%N; 5%N] [9%N; 1%N] [9%N; 2%N] [9%N; 2%N] 5 [1%N] 4.
+
+(* Bootstrap with the record of height h+2 written from state.Validators (the variable of the line
+   above) instead of state.NextValidators *)
+Definition store_bootstrap_wrong (s : sstore) (st : sstate) : option sstore :=
+  let height := st_last_height st + 1 in
+  obind (save_vinfo s (height - 1) (height - 1) (st_lastvals st)) (fun s1 =>
+  obind (save_vinfo s1 height height (st_vals st)) (fun s2 =>
+  obind (save_vinfo s2 (height + 1) (height + 1) (st_vals st)) (fun s3 =>
+  Some (set_sstate (save_pinfo s3 height (st_lhcpc st) (st_params st)) st)))).
+
+(* it fails the specification exactly where it matters: the snapshot was taken where the set
+   changes at h+2; Load() still looks right; and the wrong set is what every later pointer record
+   resolves to *)
+Example C14_bootstrap_wrong_variable_refuted :
+  state_spec sq_lc 0 3 sq_state3 /\ follows_chain sq_lc sq_state3 sq_state4 /\
+  (exists s, store_bootstrap_wrong store0 sq_state3 = Some s /\
+     spec_boot_b sq_lc 3 sq_state3 (store_lookups (save_seen s 3 [53%N])) = false /\
+     lk_state (store_lookups s) = Some sq_state3 /\
+     lk_vals (store_lookups s) 5 = Some [9%N; 1%N] /\
+     exists s', store_save s sq_state4 = Some s' /\
+       lk_vals (store_lookups s') 6 = Some [9%N; 1%N] /\ chain_vals sq_lc 6 = [9%N; 2%N]) /\
+  (exists s, node_bootstrap store0 sq_state3 [53%N] = Some s /\
+     spec_boot_b sq_lc 3 sq_state3 (store_lookups s) = true /\
+     exists s', store_save s sq_state4 = Some s' /\ lk_vals (store_lookups s') 6 = Some [9%N; 2%N]).
+Proof.
+  split; [apply spec_state_b_iff; vm_compute; reflexivity|].
+  split; [apply follows_chain_b_iff; vm_compute; reflexivity|].
+  split.
+  - eexists. split; [vm_compute; reflexivity|]. split; [vm_compute; reflexivity|].
+    split; [vm_compute; reflexivity|]. split; [vm_compute; reflexivity|].
+    eexists. split; [vm_compute; reflexivity|]. split; vm_compute; reflexivity.
+  - eexists. split; [vm_compute; reflexivity|]. split; [vm_compute; reflexivity|].
+    eexists. split; vm_compute; reflexivity.
+Qed.
